@@ -47,6 +47,8 @@ const (
 	OpFPEq
 	OpFPIsNaN
 	OpFPCvt // convert float of arg width to float of W (RNE), result as bits
+	OpFPFromSInt // signed integer -> float of width W (RNE), result as bits
+	OpFPFromUInt // unsigned integer -> float of width W (RNE), result as bits
 )
 
 var opNames = map[Op]string{
@@ -857,6 +859,12 @@ func Body(t *Term) string {
 		e0, m0 := fpSort(t.Args[0].W)
 		e1, m1 := fpSort(t.W)
 		fmt.Fprintf(&b, "(fp.to_ieee_bv ((_ to_fp %d %d) RNE ((_ to_fp %d %d) %s)))", e1, m1, e0, m0, Ref(t.Args[0]))
+	case OpFPFromSInt:
+		e1, m1 := fpSort(t.W)
+		fmt.Fprintf(&b, "(fp.to_ieee_bv ((_ to_fp %d %d) RNE %s))", e1, m1, Ref(t.Args[0]))
+	case OpFPFromUInt:
+		e1, m1 := fpSort(t.W)
+		fmt.Fprintf(&b, "(fp.to_ieee_bv ((_ to_fp_unsigned %d %d) RNE %s))", e1, m1, Ref(t.Args[0]))
 	case OpFPIsNaN:
 		e, m := fpSort(t.Args[0].W)
 		fmt.Fprintf(&b, "(fp.isNaN ((_ to_fp %d %d) %s))", e, m, Ref(t.Args[0]))
